@@ -429,6 +429,15 @@ class PauliSum:
     def _value_equality_values_(self):
         return self._linear_dict
 
+    def _is_parameterized_(self) -> bool:
+        return protocols.is_parameterized(self._linear_dict)
+
+    def _parameter_names_(self) -> Set[str]:
+        return protocols.parameter_names(self._linear_dict)
+
+    def _resolve_parameters_(self, resolver: cirq.ParamResolver, recursive: bool) -> PauliSum:
+        return PauliSum(protocols.resolve_parameters(self._linear_dict, resolver, recursive))
+
     @staticmethod
     def wrap(val: PauliSumLike) -> PauliSum:
         """Convert a `cirq.PauliSumLike` object to a PauliSum
